@@ -1,10 +1,15 @@
-"""Discharge obligations: one solver query per obligation, 16 worker processes."""
-import os, time, multiprocessing as mp
+"""Discharge obligations: one solver query per obligation, 16 worker processes.
+
+Hints (contracts/HINTS.json) name, per obligation, a subset of hypotheses that sufficed last time
+(an unsat core).  A hinted query is tried first; proving from a subset of the hypotheses is a proof.
+If it does not go through, the full query decides.  Hints never turn a failure into a pass."""
+import os, time, json, hashlib, multiprocessing as mp
 from concurrent.futures import ProcessPoolExecutor
 import z3
 from . import worker
 
 _pool = None
+HINTS_PATH = os.path.join(os.path.dirname(os.path.dirname(os.path.abspath(__file__))), "contracts", "HINTS.json")
 
 
 def pool():
@@ -24,19 +29,47 @@ def to_smt(ob, bg):
     return s.to_smt2()
 
 
-def discharge(obls, timeout_ms=20000, seed=0, retries=((60000, 1), (60000, 7)), use_cvc5=True):
+def load_hints():
+    try:
+        return json.load(open(HINTS_PATH))
+    except Exception:
+        return {}
+
+
+def assign_keys(obls):
+    seen = {}
+    for ob in obls:
+        base = "%s|%s" % (ob.site, getattr(ob, "trail", "").strip())
+        n = seen.get(base, 0)
+        seen[base] = n + 1
+        ob.key = base if n == 0 else "%s#%d" % (base, n)
+
+
+def discharge(obls, timeout_ms=20000, seed=0, retries=((60000, 1),), use_cvc5=True, hints=None, learn=False):
+    """obls: list of Obl with .bg set.  Sets .status in proved / refuted / unknown / error."""
     if os.environ.get("PYVC_NORETRY"):
         retries, use_cvc5 = (), False
-    """obls: list of Obl with .bg set.  Sets .status in proved / refuted / unknown / error."""
     p = pool()
-    jobs = []
+    assign_keys(obls)
+    hints = load_hints() if hints is None else hints
+    t0 = time.time()
     for ob in obls:
         ob.smt = to_smt(ob, ob.bg)
-        jobs.append((ob.smt, 1500 if ob.kind == "canary" else timeout_ms, seed, "z3"))
-    t0 = time.time()
-    res = list(p.map(worker.run, jobs, chunksize=1))
+        ob.nhyp = len(ob.bg) + len(ob.hyps)
+    # 1. hinted attempt
+    hinted = [ob for ob in obls if ob.key in hints and ob.kind != "canary" and hints[ob.key].get("n") == ob.nhyp]
+    res = list(p.map(worker.run, [(ob.smt, 8000, seed, "hint", hints[ob.key]["core"]) for ob in hinted], chunksize=1))
+    done = set()
+    for ob, (st, t, why) in zip(hinted, res):
+        ob.time += t
+        if st == "unsat":
+            ob.status, ob.backend = "proved", "z3(core-hint)"
+            done.add(id(ob))
+    # 2. full query
+    todo = [ob for ob in obls if id(ob) not in done]
+    res = list(p.map(worker.run, [(ob.smt, 1500 if ob.kind == "canary" else timeout_ms, seed, "z3") for ob in todo], chunksize=1))
     pending = []
-    for ob, (st, t, why) in zip(obls, res):
+    for ob, (st, t, why) in zip(todo, res):
         ob.time += t
         ob.backend = "z3"
         ob.detail = why
@@ -59,11 +92,25 @@ def discharge(obls, timeout_ms=20000, seed=0, retries=((60000, 1), (60000, 7)), 
                 nxt.append(ob)
         pending = nxt
     if pending and use_cvc5:
-        res = list(p.map(worker.run, [(ob.smt, 60000, 0, "cvc5") for ob in pending], chunksize=1))
+        res = list(p.map(worker.run, [(ob.smt, 30000, 0, "cvc5") for ob in pending], chunksize=1))
         for ob, (st, t, why) in zip(pending, res):
             ob.time += t
             if st == "unsat":
                 ob.status, ob.backend = "proved", "cvc5"
             elif st == "sat":
                 ob.status, ob.backend = "refuted", "cvc5"
+    if learn:
+        learn_hints(obls, hints, seed)
     return time.time() - t0
+
+
+def learn_hints(obls, hints, seed=0):
+    p = pool()
+    cand = [ob for ob in obls if ob.status == "proved" and ob.kind != "canary" and ob.backend != "z3(core-hint)"]
+    res = list(p.map(worker.run, [(ob.smt, 60000, seed, "core") for ob in cand], chunksize=1))
+    for ob, (st, t, core) in zip(cand, res):
+        if st == "unsat":
+            hints[ob.key] = {"n": ob.nhyp, "core": core}
+    tmp = HINTS_PATH + ".tmp"
+    json.dump(hints, open(tmp, "w"), indent=0, sort_keys=True)
+    os.replace(tmp, HINTS_PATH)
